@@ -201,7 +201,11 @@ func c19ops(thorough bool) []c19op {
 	for _, d := range []byte{'\n', 'Z'} {
 		d := d
 		add(fmt.Sprintf("ReadBytes(%q)", d), func(b bufAPI) string {
-			return guard(func() string { l, e := b.ReadBytes(d); return fmt.Sprintf("%q %s", l, normErr(e)) })
+			return guard(func() string {
+				l, e := b.ReadBytes(d)
+				c19keep[b] = append(c19keep[b], l) // the slice itself, not a copy
+				return fmt.Sprintf("%q %s", l, normErr(e))
+			})
 		})
 		add(fmt.Sprintf("ReadString(%q)", d), func(b bufAPI) string {
 			return guard(func() string { l, e := b.ReadString(d); return fmt.Sprintf("%q %s", l, normErr(e)) })
@@ -275,6 +279,17 @@ func c19ops(thorough bool) []c19op {
 	return ops
 }
 
+// c19keep holds, per buffer object, the slices ReadBytes returned (they are documented as private copies).
+var c19keep = map[bufAPI][][]byte{}
+
+func c19kept(b bufAPI) string {
+	var sb strings.Builder
+	for _, l := range c19keep[b] {
+		fmt.Fprintf(&sb, "%q,", l)
+	}
+	return sb.String()
+}
+
 type c19root struct {
 	name string
 	mk   func() (bufAPI, bufAPI) // (impl, ref)
@@ -319,14 +334,25 @@ func c19key(impl bufAPI, ref bufAPI) string {
 // the final key.
 func c19replay(roots []c19root, ops []c19op, cas c19case) (*Violation, string) {
 	impl, ref := roots[cas.Root].mk()
+	defer func() { delete(c19keep, impl); delete(c19keep, ref) }()
 	for i, oi := range cas.Ops {
 		op := ops[oi]
 		ra := op.f(impl)
 		rb := op.f(ref)
-		obsA := fmt.Sprintf("%s | Len=%d String=%q", ra, impl.Len(), impl.String())
-		obsB := fmt.Sprintf("%s | Len=%d String=%q", rb, ref.Len(), ref.String())
-		if !bytes.Equal(impl.Bytes(), ref.Bytes()) {
-			obsA += " Bytes differ"
+		observe := func(b bufAPI) (s string) {
+			defer func() {
+				if p := recover(); p != nil {
+					s = "observer " + normPanic(p)
+				}
+			}()
+			return fmt.Sprintf("Len=%d String=%q Bytes=%q", b.Len(), b.String(), b.Bytes())
+		}
+		obsA := ra + " | " + observe(impl)
+		obsB := rb + " | " + observe(ref)
+		// results that are private copies (ReadBytes / ReadString) must stay what they were
+		if keepA, keepB := c19kept(impl), c19kept(ref); keepA != keepB {
+			obsA += " | earlier ReadBytes results now " + keepA
+			obsB += " | earlier ReadBytes results now " + keepB
 		}
 		if obsA != obsB {
 			cc := cas
